@@ -72,10 +72,11 @@ EXTENDED_COMMUNITY_TARGET_PARTS = 2  # Target extended community has 2 parts (AS
 
 def prefix(tokeniser: 'Tokeniser') -> IPRange:
     ip = tokeniser()
-    try:
+    if '/' in ip:
+        # a mask which is not a number is an error, not a host route
         ip, mask_str = ip.split('/')
         mask = int(mask_str)
-    except ValueError:
+    else:
         mask = 32
         if ':' in ip:
             mask = 128
